@@ -215,9 +215,12 @@ def want_lines_for(st, window_nominal):
             head = last.split(': ', 1)
             lines = [TB_HEADER, '    ...', head[0] + ': ' + head[1][:4] + '...']
         elif w == 'tbwrongmsg':
-            lines = [TB_HEADER, '    ...', last + 'DIFFERENT']
+            lines = [TB_HEADER, '    ...', last + ('DIFFERENT' if ':' in last else ': DIFFERENT')]
         elif w == 'tbwrongtype':
-            lines = [TB_HEADER, '    ...', 'Sim' + last]
+            # another class *name* (the part after the last dot and before the colon)
+            head, sep, tail = last.partition(':')
+            mod, dot, short = head.rpartition('.')
+            lines = [TB_HEADER, '    ...', mod + dot + 'Sim' + short + sep + tail]
         elif w == 'tbdetail':
             # only valid with IGNORE_EXCEPTION_DETAIL: class right, message different
             head = last.split(':', 1)[0]
